@@ -7,7 +7,9 @@ Paths of every pushing process (Source.behaviour, the three workers) are partiti
      just true, with no suspension in between, and the process itself never reserves;
   R3 a refusing probe is followed by exactly one discard count and no suspension on the way to it;
   R4 the decision variable tested after the first-available scan is (re)initialised in the same iteration;
-  R5 can_put exists on every Edge subclass and reads only attributes that exist.
+  R5 can_put exists on every Edge subclass and reads only attributes that exist;
+  R6 under FIRST_AVAILABLE an item is dropped only after *every* out-edge refused: a scan loop that is left by `break` (or return) on a refusing
+     probe drops items although a later edge has room.
 """
 from __future__ import annotations
 
@@ -40,6 +42,7 @@ def run(p: Project, tier: str) -> Result:
     r.rule('C09.R2', 'non-blocking push only after a true can_put() of the same edge, no suspension in between, no own reservation', 6)
     r.rule('C09.R3', 'a refused item is counted as discarded exactly once, without waiting', 6)
     r.rule('C09.R4', 'the first-available decision variable is initialised in the same iteration', 4)
+    r.rule('C09.R6', 'first-available: a discard is reached only by exhausting the scan over the out-edges', 3)
     r.rule('C09.R5', 'can_put is implemented by every Edge subclass and reads only existing attributes', 4)
     r.not_decided = ['same-instant race between can_put() and the reservation inside the spawned _push_item',
                      'that can_put is exact (C11.R1 for Buffer/Fleet)']
@@ -114,6 +117,43 @@ def check_root(r, w, root, fi, ps):
                                                      'the push can wait for space')
             if e.kind == 'pcall' and e.name == 'reserve_put' and e.fi.name == root:
                 own_reserve = (e, pa)
+    # R6: generic scan loops (`for e in self.out_edges: if e.can_put(): ...`) that were not summarised as a first-available idiom
+    scan_sites = {}
+    for pa in ps:
+        if pa.raises or pa.status == 'loopcut' or blocking_polarity(pa) is not False:
+            continue
+        evs = pa.events
+        for i, e in enumerate(evs):
+            if not (e.kind == 'setitem' and 'num_item_discarded' in e.target):
+                continue
+            # the last probe before this discard, and the loop it sits in
+            j = next((k for k in range(i - 1, -1, -1) if evs[k].kind in ('pcall', 'first_available', 'yield') and
+                      (evs[k].kind != 'pcall' or evs[k].name == 'can_put')), None)
+            if j is not None and evs[j].kind == 'first_available':
+                fa = evs[j]
+                key = site(fa.fi, fa.node, 'scan-exhausted', same=lambda n: isinstance(n, ast.For))
+                rec = scan_sites.setdefault(key, {'ok': True, 'e': fa, 'pa': pa, 'why': ''})
+                if fa.outcome == 'found' and rec['ok']:
+                    rec.update(ok=False, pa=pa, why='an item is counted as discarded although the first-available scan found an edge with room')
+                continue
+            if j is None or evs[j].kind != 'pcall':
+                continue
+            heads = [k for k in range(j - 1, -1, -1) if evs[k].kind == 'foriter']
+            if not heads:
+                continue
+            fo = evs[heads[0]]
+            if 'out_edges' not in fo.iter:
+                continue
+            key = site(fo.fi, fo.node, 'scan-exhausted', same=lambda n: isinstance(n, ast.For))
+            rec = scan_sites.setdefault(key, {'ok': True, 'e': fo, 'pa': pa, 'why': ''})
+            exits = [x for x in evs[j:i] if x.kind == 'loopexit' and x.loop_line == fo.node.lineno]
+            if rec['ok'] and (not exits or exits[0].how != 'exhausted'):
+                rec.update(ok=False, pa=pa, why=f'the scan over `{fo.iter}` is left {"by `break`" if exits else "early"} after an edge refused (line {evs[j].line}) and the item is '
+                                                f'counted as discarded: a later out-edge with room is never asked')
+    for key, rec in sorted(scan_sites.items()):
+        e = rec['e']
+        (r.ok if rec['ok'] else r.fail)('C09.R6', key, 'the discard is reached only when the loop over the out-edges is exhausted' if rec['ok'] else rec['why'],
+                                        src(e.fi.module), e.line, *([] if rec['ok'] else [rec['pa'].describe()]))
     if n_block:
         if bad1:
             pa, e = bad1
